@@ -107,6 +107,17 @@ def _prune(keep=8):
             os.remove(p)
         except OSError:
             pass
+    # go.mod copies made for scratch worktrees that are gone
+    for f in os.listdir(CACHE):
+        d = os.path.join(CACHE, f)
+        if f.startswith("mod-") and os.path.isdir(d):
+            try:
+                txt = open(os.path.join(d, "go.mod")).read()
+                m = re.search(r"=> (\S+)", txt)
+                if m and not os.path.isdir(m.group(1)):
+                    shutil.rmtree(d, ignore_errors=True)
+            except OSError:
+                pass
 
 
 def build(cmd, dirs, race=False, tags="verif"):
